@@ -176,6 +176,8 @@ fn expressions(tier: Tier) -> Vec<(String, String, &'static str)> {
                     v.push((format!("ifexprR.{l}"), format!("{a} {o} (if {b} then {c} else {d})"), "Luau"));
                 }
                 for u in UN51 {
+                    v.push((format!("assertOfUn.{l}"), format!("({}{a}) :: T", sp(u)), "Luau"));
+                    v.push((format!("assertOfUnChain.{l}"), format!("({}{a}) :: T + {b}", sp(u)), "Luau"));
                     v.push((format!("unAssert.{l}"), format!("{}({a} :: T)", sp(u)), "Luau"));
                     v.push((format!("unIfexpr.{l}"), format!("{}(if {a} then {b} else {c})", sp(u)), "Luau"));
                 }
